@@ -123,3 +123,16 @@ reg("C09", harness="c09_invert", level="exploration", deadline=(300, 1800),
     runs=[dict(flavour="sim")],
     rule="case = one matrix / one (m,k) / one survivor set / one minor / one erasure pattern; distinct_nontrivial = distinct (m,k) and region "
          "groups completed; evaluations = inversions or determinants compared with the reference.")
+
+
+reg("C01", harness="c01_deflate", level="exploration", deadline=(400, 2400), extra_src=["ref/ref_inflate.c"],
+    technique="bounded-exhaustive enumeration of the full parameter product x simulated CPU levels x named input families, decoded by two independent decoders",
+    level_text="Full product level x flush x wrapper x hist_bits x Huffman-table choice x level_buf size x API (one-shot, streaming one call, "
+               "streaming 97/61-byte chunks) x 7 simulated CPU levels over the SHAPES family (~250 designed inputs) and, with a reduced "
+               "wrapper set, ALL strings over {00,a,b} up to length 6 (8) and over {00,FF} up to length 10 (12); thorough adds BIG inputs "
+               "(32 KiB..200 KB). Every distinct produced stream is decoded by the bit-serial reference AND zlib; both must return the input, "
+               "consume the stream to its last byte and accept the trailer.",
+    level_note="inputs outside the families are not covered; trusted: ref/ref_inflate.c (self-checked against zlib), zlib 1.2.13",
+    runs={"quick": [dict(flavour="sim")], "thorough": [dict(flavour="sim"), dict(flavour="h8k"), dict(flavour="lht")]},
+    rule="case = (input, level, flush, wrapper, hist_bits, table, level_buf, api, cpu level); distinct_nontrivial = number of DISTINCT non-empty "
+         "output streams (hash of bytes) that were produced and verified; evaluations = compress calls.")
